@@ -3,8 +3,10 @@ package core
 import (
 	"go/ast"
 	"go/constant"
+	"go/printer"
 	"go/token"
 	"go/types"
+	"strings"
 
 	"golang.org/x/tools/go/ssa"
 )
@@ -193,4 +195,44 @@ func (p *Prog) BinaryExprAt(fn *ssa.Function, pos token.Pos) string {
 		return out == ""
 	})
 	return out
+}
+
+// StmtTextAt returns the one-line source text of the innermost simple statement (assignment, inc/dec,
+// expression statement, return, range/if header) that contains pos, for line-free obligation keys.
+func (p *Prog) StmtTextAt(fn *ssa.Function, pos token.Pos) string {
+	if !pos.IsValid() {
+		return ""
+	}
+	root := fn
+	for root.Parent() != nil {
+		root = root.Parent()
+	}
+	body := p.Body(root)
+	if body == nil {
+		return ""
+	}
+	var best ast.Node
+	ast.Inspect(body, func(n ast.Node) bool {
+		if n == nil {
+			return false
+		}
+		if n.Pos() > pos || n.End() < pos {
+			return false
+		}
+		switch n.(type) {
+		case *ast.AssignStmt, *ast.IncDecStmt, *ast.ExprStmt, *ast.ReturnStmt, *ast.GoStmt, *ast.DeferStmt, *ast.SendStmt:
+			best = n
+		}
+		return true
+	})
+	if best == nil {
+		return ""
+	}
+	var sb strings.Builder
+	printer.Fprint(&sb, p.Fset, best)
+	s := strings.Join(strings.Fields(sb.String()), " ")
+	if len(s) > 90 {
+		s = s[:90] + "…"
+	}
+	return s
 }
